@@ -95,6 +95,9 @@ let read_deadline = ref (-1)
 let read_tl = ref (-1)
 let first_clock = ref true
 let polls_after_deadline = ref 0
+(* poll reported stdin writable, and the library polled again (or returned) without having written to it *)
+let pending_in = ref false
+let starved = ref 0
 let consumed_out = ref 0
 let consumed_err = ref 0
 let max_single = ref 0
@@ -171,6 +174,13 @@ let serve_call (c : Comm.call) : Comm.result option =
       (match c, r with
        | Comm.KClock, Comm.RNow t when !first_clock ->
          first_clock := false; if !read_tl >= 0 then read_deadline := int_of_n t + !read_tl
+       | _ -> ());
+      (match c, r with
+       | Comm.KPoll _, Comm.RPoll (_, a, _, _) ->
+         if !pending_in then incr starved;
+         pending_in := (int_of_n a <> 0)
+       | Comm.KPoll _, _ -> if !pending_in then incr starved; pending_in := false
+       | (Comm.KWrite _ | Comm.KClose), _ -> pending_in := false
        | _ -> ());
       (match r with
        | Comm.RData b ->
@@ -308,7 +318,7 @@ let () =
        (* ---- communicate run-time ---- *)
        | ["oneshot"] -> oneshot := true; reply "ok"
        | ["start"; lim; tl] ->
-         incr readidx; read_calls := 0; polls_after_deadline := 0;
+         incr readidx; read_calls := 0; polls_after_deadline := 0; pending_in := false; starved := 0;
          read_t0 := now_of_world ();
          read_deadline := -1; first_clock := true;
          read_tl := (if tl = "-" then -1 else int_of_string tl);
@@ -337,11 +347,12 @@ let () =
          (match !lstate with Some s -> lcomm := Some s.Comm.cm | None -> ());
          (* if the real code diverged on what is left of the input we cannot know it; keep L's view *)
          let w = match !world with Some w -> w | None -> failwith "no world" in
-         rp "read %d kind=%s out=%s err=%s t0=%d t1=%d deadline=%d calls=%d polls_after_deadline=%d consumed_out=%d consumed_err=%d pin_buf=%d pout_buf=%d perr_buf=%d pout_wr=%b perr_wr=%b pin_wr=%b written=%d\n"
+         rp "read %d kind=%s out=%s err=%s t0=%d t1=%d deadline=%d calls=%d polls_after_deadline=%d consumed_out=%d consumed_err=%d pin_buf=%d pout_buf=%d perr_buf=%d pout_wr=%b perr_wr=%b pin_wr=%b written=%d starved=%d\n"
            !readidx kind o e !read_t0 t1 !read_deadline !read_calls !polls_after_deadline !consumed_out !consumed_err
            (Stdlib.List.length w.CommK.pin.CommK.buf) (Stdlib.List.length w.CommK.pout.CommK.buf)
            (Stdlib.List.length w.CommK.perr.CommK.buf) w.CommK.pout.CommK.wr w.CommK.perr.CommK.wr w.CommK.pin.CommK.wr
-           (Stdlib.List.length w.CommK.child_got + Stdlib.List.length w.CommK.pin.CommK.buf);
+           (Stdlib.List.length w.CommK.child_got + Stdlib.List.length w.CommK.pin.CommK.buf)
+           (if !pending_in && (kind = "ok" || kind = "timedout") then !starved + 1 else !starved);
          lstate := None; lexpect := None;
          reply "ok"
        | ["retstr"; kind] ->
@@ -355,11 +366,12 @@ let () =
          if mkind <> kind then diverge (Printf.sprintf "E1:Comm read#%d return: real=%s model=%s" !readidx kind mkind);
          (match !lstate with Some s -> lcomm := Some s.Comm.cm | None -> ());
          let w = match !world with Some w -> w | None -> failwith "no world" in
-         rp "read %d kind=%s out=%s err=%s t0=%d t1=%d deadline=%d calls=%d polls_after_deadline=%d consumed_out=%d consumed_err=%d pin_buf=%d pout_buf=%d perr_buf=%d pout_wr=%b perr_wr=%b pin_wr=%b written=%d\n"
+         rp "read %d kind=%s out=%s err=%s t0=%d t1=%d deadline=%d calls=%d polls_after_deadline=%d consumed_out=%d consumed_err=%d pin_buf=%d pout_buf=%d perr_buf=%d pout_wr=%b perr_wr=%b pin_wr=%b written=%d starved=%d\n"
            !readidx kind mo me !read_t0 t1 !read_deadline !read_calls !polls_after_deadline !consumed_out !consumed_err
            (Stdlib.List.length w.CommK.pin.CommK.buf) (Stdlib.List.length w.CommK.pout.CommK.buf)
            (Stdlib.List.length w.CommK.perr.CommK.buf) w.CommK.pout.CommK.wr w.CommK.perr.CommK.wr w.CommK.pin.CommK.wr
-           (Stdlib.List.length w.CommK.child_got + Stdlib.List.length w.CommK.pin.CommK.buf);
+           (Stdlib.List.length w.CommK.child_got + Stdlib.List.length w.CommK.pin.CommK.buf)
+           (if !pending_in && (kind = "ok" || kind = "timedout") then !starved + 1 else !starved);
          lstate := None; lexpect := None;
          reply (mo ^ " " ^ me)
        (* ---- Popen run-time ---- *)
